@@ -20,18 +20,26 @@
 (***************************************************************************)
 EXTENDS Queue
 
-CONSTANT Cons     \* consumer ids
+CONSTANTS Cons,   \* consumer ids
+          Prods   \* producer ids (callers of AddAnyway, which blocks while the lane is full)
 
 VARIABLES
   cst,     \* consumer -> "idle" | "parked" | "woken"
   cany,    \* consumer -> the blocked call is PopAnyway
-  cres     \* consumer -> reply of its latest returned Pop
+  cres,    \* consumer -> reply of its latest returned Pop
+  pst,     \* producer -> "idle" | "parked" (inside AddAnyway on a full, open lane)
+  preq,    \* producer -> the add it is trying
+  pres     \* producer -> reply of its latest returned AddAnyway
 
-wvars == <<qvars, cst, cany, cres>>
+wvars == <<qvars, cst, cany, cres, pst, preq, pres>>
 allwvars == <<wvars, last>>
 
 Parked == {c \in Cons : cst[c] = "parked"}
-Stable == \A c \in Cons : cst[c] # "woken"
+(* a parked producer retries by itself (the code polls; a condition variable would be notified by *)
+(* whoever makes room): it can proceed as soon as the queue is closed or its lane has room        *)
+NoAdd == [op |-> "addw", lane |-> "req", v |-> 0, val |-> 0]
+CanProceed(p) == pst[p] = "parked" /\ (closed \/ (~Full(AsAdd(preq[p])) /\ Deviation # "prod_sleeps"))
+Stable == (\A c \in Cons : cst[c] # "woken") /\ (\A p \in Prods : ~CanProceed(p))
 
 BroadcastAll == {[c \in Cons |-> IF cst[c] = "parked" THEN "woken" ELSE cst[c]]}
 SignalOne    == IF Parked = {} THEN {cst} ELSE {[cst EXCEPT ![c] = "woken"] : c \in Parked}
@@ -60,6 +68,7 @@ PopCall(c, any) ==
           /\ cany' = [cany EXCEPT ![c] = any]
           /\ last' = [a |-> PopAct(c, any), r |-> R("parked", 0)]
           /\ UNCHANGED <<qvars, cres>>
+  /\ UNCHANGED <<pst, preq, pres>>
 
 External(a, r) ==
   /\ a.op # "pop"
@@ -67,6 +76,32 @@ External(a, r) ==
   /\ cst' \in Notifies(a)
   /\ Do(a)
   /\ last' = [a |-> a, r |-> r]
+  /\ UNCHANGED <<cany, cres, pst, preq, pres>>
+
+(* AddAnyway by producer p: the add (a : an "addw" record) happens at once when the queue is     *)
+(* closed (refused) or the lane has room; otherwise p parks inside the call                       *)
+PAct(p, a) == [op |-> "paddw", p |-> p, lane |-> a.lane, v |-> a.v, val |-> a.val]
+ProdCall(p, a) ==
+  /\ pst[p] = "idle"
+  /\ IF closed \/ ~Full(AsAdd(a))
+     THEN \E r \in Replies(a) :
+            /\ cst' \in Notifies(a) /\ Do(a)
+            /\ pres' = [pres EXCEPT ![p] = r]
+            /\ last' = [a |-> PAct(p, a), r |-> r]
+            /\ UNCHANGED <<pst, preq>>
+     ELSE /\ pst' = [pst EXCEPT ![p] = "parked"] /\ preq' = [preq EXCEPT ![p] = a]
+          /\ last' = [a |-> PAct(p, a), r |-> R("parked", 0)]
+          /\ seq' = seq + 1                     \* the item id is taken
+          /\ UNCHANGED <<kind, ccap, rcap, ctrl, req, closed, cleared, hist, out, cst, pres>>
+  /\ UNCHANGED <<cany, cres>>
+
+ProdRetry(p) ==
+  /\ CanProceed(p)
+  /\ \E r \in Replies(preq[p]) :
+       /\ cst' \in Notifies(preq[p]) /\ Do(preq[p])
+       /\ pres' = [pres EXCEPT ![p] = r]
+       /\ last' = [a |-> [op |-> "pretry", p |-> p], r |-> r]
+  /\ pst' = [pst EXCEPT ![p] = "idle"] /\ preq' = [preq EXCEPT ![p] = NoAdd]
   /\ UNCHANGED <<cany, cres>>
 
 Wake(c) ==
@@ -81,11 +116,14 @@ Wake(c) ==
      ELSE /\ cst' = [cst EXCEPT ![c] = "parked"]
           /\ last' = [a |-> [op |-> "wake", c |-> c], r |-> R("parked", 0)]
           /\ UNCHANGED <<qvars, cany, cres>>
+  /\ UNCHANGED <<pst, preq, pres>>
 
 WInitWith(k, cc, rc) ==
   /\ InitWith(k, cc, rc)
   /\ cst = [c \in Cons |-> "idle"] /\ cany = [c \in Cons |-> FALSE]
   /\ cres = [c \in Cons |-> R("none", 0)]
+  /\ pst = [p \in Prods |-> "idle"] /\ preq = [p \in Prods |-> NoAdd]
+  /\ pres = [p \in Prods |-> R("none", 0)]
 
 ---------------------------------------------------------------------------
 ExtActs == {a \in ActsOf(kind) : a.op # "pop"}
@@ -95,13 +133,16 @@ ExtNext == \/ \E a \in ExtActs : \E r \in Replies(a) :
                 /\ (IsAdd(a) => seq < MaxItems)
                 /\ External(a, r)
            \/ \E c \in Cons, any \in PopAnys : PopCall(c, any)
-IntNext == \E c \in Cons : Wake(c)
+           \/ \E p \in Prods, l \in Lanes(kind) :
+                /\ kind # "syncq" /\ seq < MaxItems
+                /\ ProdCall(p, [op |-> "addw", lane |-> l, v |-> seq + 1, val |-> seq + 1])
+IntNext == (\E c \in Cons : Wake(c)) \/ (\E p \in Prods : ProdRetry(p))
 
 WInit == \E c \in Configs : WInitWith(c.kind, c.ccap, c.rcap)
 (* every interleaving: producers, closers and new consumers run while notified ones wake up *)
 WNext == ExtNext \/ IntNext
 WSpec == WInit /\ [][WNext]_allwvars
-WFairSpec == WSpec /\ \A c \in Cons : WF_allwvars(Wake(c))
+WFairSpec == WSpec /\ (\A c \in Cons : WF_allwvars(Wake(c))) /\ (\A p \in Prods : WF_allwvars(ProdRetry(p)))
 (* plan generation: external calls only in stable states (the executor waits for quiescence) *)
 GenNext == IntNext \/ (Stable /\ ExtNext)
 GenSpec == WInit /\ [][GenNext]_allwvars
@@ -112,13 +153,16 @@ WTypeOK == \A c \in Cons : cst[c] \in {"idle", "parked", "woken"}
 (* no lost wake-up: once every notified consumer has run, nobody sleeps      *)
 (* beside an item or in a closed queue                                      *)
 NoStranded == Stable => \A c \in Cons : cst[c] = "parked" => (Empty /\ ~closed)
+(* ... and no producer waits in AddAnyway beside room or in a closed queue; a producer never adds *)
+(* to a closed queue (CloseSem of Queue.tla holds for every step, also for a retry)               *)
+NoStrandedProducer == Stable => \A p \in Prods : pst[p] = "parked" => (~closed /\ Full(AsAdd(preq[p])))
 (* ... so k adds with at least k parked consumers leave no item behind, and  *)
 (* (Conservation of Queue.tla) the k returns carry k distinct items          *)
 NothingLeftBeside == (Stable /\ Parked # {}) => SeqSet(out) = HistItems
 
 (* close releases every blocked consumer *)
-CloseReleases == closed ~> (\A c \in Cons : cst[c] = "idle")
+CloseReleases == closed ~> ((\A c \in Cons : cst[c] = "idle") /\ (\A p \in Prods : pst[p] = "idle"))
 ItemsDelivered == \A c \in Cons : (cst[c] = "woken") ~> (cst[c] # "woken")
 
-WView == <<qvars, cst, cany>>        \* cres is output only
+WView == <<qvars, cst, cany, pst, preq>>        \* cres, pres are output only
 =============================================================================
